@@ -219,14 +219,26 @@ func runJob(ld *Loaded, base *sym.State, j Job, opt Options) JobResult {
 					r.UnknownObl++
 					r.Notes = append(r.Notes, fmt.Sprintf("PO scenario %d: query %s unknown/timeout", out.Scenario, q.Name))
 				case smt.Sat:
+					var rpOK func(label string) *bool
+					rpOK = func(label string) *bool {
+						if q.Replay == "" {
+							return nil
+						}
+						b := q.Replay == "ok" && (label == "" || q.ReplayLabels[label])
+						return &b
+					}
+					rpNote := q.Replay
+					if q.Replay == "ok" {
+						rpNote = "schedule replayed sequentially over one heap"
+					}
 					for _, rc := range q.Races {
-						r.Violations = append(r.Violations, sym.Violation{Label: "C19/data-race", Msg: rc.Key(), Pos: rc.Key(), History: poTraceText(q)})
+						r.Violations = append(r.Violations, sym.Violation{Label: "C19/data-race", Msg: rc.Key(), Pos: rc.Key(), History: poTraceText(q), Replayed: rpOK(""), Stack: rpNote})
 					}
 					if len(q.FailedEv) == 0 && len(q.Races) == 0 {
 						r.Violations = append(r.Violations, sym.Violation{Label: "po", Msg: strings.Join(q.Failed, "; "), Pos: q.Name, History: poTraceText(q)})
 					}
 					for _, e := range q.FailedEv {
-						r.Violations = append(r.Violations, sym.Violation{Label: e.Label, Msg: e.Stack, Pos: q.Name + " " + e.Pos, History: poTraceText(q), Stack: e.Stack})
+						r.Violations = append(r.Violations, sym.Violation{Label: e.Label, Msg: e.Stack + " [" + rpNote + "]", Pos: q.Name + " " + e.Pos, History: poTraceText(q), Stack: e.Stack, Replayed: rpOK(e.Label)})
 					}
 				}
 				for _, kw := range q.KnownHit {
@@ -507,6 +519,11 @@ func RunProperty(opt Options) int {
 			// replay
 			rp := writeReplay(opt.Prop, name, res.Job, v)
 			ok, out := true, ""
+			if res.Job.H.PO && v.Replayed != nil {
+				ok = *v.Replayed
+				out = "schedule replay: " + v.Msg
+				tracesValidated++
+			}
 			if !opt.NoReplay && !res.Job.H.PO {
 				if res.Job.H.ReplayInterp {
 					ok, out = InterpReplay(ld, base, res.Job, v, opt.Prop)
